@@ -1,6 +1,6 @@
 // C15: TetTopology / TriangleTopology (Unstable/Topology) label consistency against a brute-force reference built from the
 // stored halfface definitions and from the label NAMES (independent tables below).
-//   shard params: 0 = base, 1 = cell index, 2 = constructor kind (see K_*)
+//   shard params: 0 = base, 1 = cell index, 2 = constructor kind (see K_*), 3 = 0: all halffaces abc of the cell / k+1: only the k-th
 //   enumerated (constant): the halfface abc of the cell (and, for K_CH_A, the vertex a)
 //   free symbolic: the vertex a inside abc (K_CH_ABC_A, K_ABC_A), the halfedge label (12), the halfface label (32), the probe
 //   vertex / halfedge / halfface passed to get_label, the start vertex of TriangleTopology(mesh,hfh,a)
@@ -145,7 +145,9 @@ static void run_labels() {
   check_shape(m, s);
   if (!R_ok || !r_live_tet(c)) return;
   check_static_tables();
+  const unsigned only = v_param(3);            // 0: all four halffaces abc of the cell; 1..4: only the (only-1)-th
   for (int k = 0; k < 4; ++k) {
+    if (only && (unsigned)k != only - 1) continue;
     const int abc = r_chf(c, k);
     switch (kind) {
     case K_CH_ABC_A: { int p = probe_below(3); int a = r_hf_v(abc, p); TT t(m, CH(c), HFH(abc), VH(a)); check_tt(m, s, t, c, abc, a); break; }
@@ -153,7 +155,7 @@ static void run_labels() {
     case K_ABC_A: { int p = probe_below(3); int a = r_hf_v(abc, p); TT t(m, HFH(abc), VH(a)); check_tt(m, s, t, c, abc, a); break; }
     case K_ABC: { TT t(m, HFH(abc)); check_tt(m, s, t, c, abc, -1); break; }
     case K_CH_A: { int a = r_apex(c, abc); TT t(m, CH(c), VH(a)); check_tt(m, s, t, c, -1, a); break; }   // k-th vertex of the cell = apex of its k-th halfface
-    case K_CH: { if (k == 0) { TT t(m, CH(c)); check_tt(m, s, t, c, -1, -1); } break; }
+    case K_CH: { if (k == 0 || only) { TT t(m, CH(c)); check_tt(m, s, t, c, -1, -1); } break; }
     default: break;
     }
     // TriangleTopology's own constructors on this halfface and on its opposite (a boundary / neighbour halfface)
